@@ -438,6 +438,12 @@ func (tr *Tr) unop(fr *frame, x *ssa.UnOp, set func(ssa.Value, string)) {
 			bound = tr.loadBound(fr, pl.key)
 		}
 		tr.assume(fr.curReach, tr.belowAlloc(r, bound))
+		if g, ok := x.X.(*ssa.Global); ok && g.Pkg != nil && !strings.HasPrefix(g.Pkg.Pkg.Path(), modulePath) &&
+			strings.HasPrefix(g.Name(), "Err") && types.Identical(g.Type().(*types.Pointer).Elem(), types.Universe.Lookup("error").Type()) {
+			// sentinel errors of the standard library (io.EOF is spelled EOF and not covered): never nil
+			tr.assume(fr.curReach, not(eq(app("i.typ", r.T), "0")))
+			tr.C.assumpt["exported Err* sentinel variables of non-module packages (e.g. io.ErrUnexpectedEOF) are non-nil"] = true
+		}
 	case token.ARROW:
 		tr.vc.Abstract["chan-recv"]++
 		if x.CommaOk {
